@@ -199,6 +199,11 @@ class C17(Property):
               # thread) when it reaches this item
               "spawn_at": W.choose("spawnat", max(1, ln)) if kind == "gen"
               and W.chance("spawn", 1, 4) else None}
+      if kind == "rec" and W.chance("rec-shaped", 1, 3):
+        # the recording shaped in place before it is played: a finite piece
+        # of it (limit), possibly with a copy kept by the caller
+        spec["rec_limit"] = W.pick("reclimit", [0, 1, ln, 3 * ln, 3 * ln + 1])
+        spec["rec_copy"] = W.chance("rec-copy-kept", 1, 3)
       if kind == "list" and W.chance("wrap", 1, 3):
         # the same finite samples handed over as another kind of iterable
         spec["wrap"] = W.pick("wrapkind", ["stream", "hub1", "tuple", "iter",
@@ -208,7 +213,8 @@ class C17(Property):
         spec["chunk_size"] = gch[0]
       specs.append(spec)
       state[len(specs) - 1] = {"paused": False, "stopped": False,
-                               "endless": kind in ("periodic", "rec")}
+                               "endless": kind in ("periodic", "rec") and
+                               spec.get("rec_limit") is None}
       script.append(["play", spec])
 
     for _ in range(min(nplayers, 1)):
@@ -223,6 +229,8 @@ class C17(Property):
       opts += [(1, "play_bad")]
       nrec = sum(1 for op in script if op[0] == "record")
       nloop = sum(1 for sp in specs if sp["kind"] == "rec")
+      if any(sp.get("rec_limit") is not None for sp in specs):
+        nloop = 0     # (a shaped recording is not stopped by the script)
       if nrec < 2:
         opts += [(1, "record")]
       if nrec and W.chance("rectake", 1, 2):
@@ -565,6 +573,11 @@ class C17(Property):
         # the fake input device stream behind this recording
         ctl.setdefault("loop_in", {})[p] = \
           [st for st in world.streams if st.is_input][-1]
+        if spec.get("rec_limit") is not None:
+          res.counters["probe.recording-shaped-before-playback"] += 1
+          if spec.get("rec_copy"):
+            ctl.setdefault("rec_copies", []).append(lrec.copy())
+          lrec.limit(spec["rec_limit"])
         return lrec
       if spec["kind"] == "list":
         vals = audio_values(p, spec)
@@ -1007,7 +1020,13 @@ class C17(Property):
         # that was stopped ends; the last chunk is then padded with zeros)
         whole = None
         avail = audio_values(p, spec, ctl["loop_in"][p].reads * spec["len"])
-        expect = (avail + [0] * ((-len(avail)) % per))[:len(decoded)]
+        if spec.get("rec_limit") is not None:
+          # a finite piece of the recording: all of it must be played
+          full = audio_values(p, spec, spec["rec_limit"])
+          whole = full + [0] * ((-len(full)) % per)
+          expect = whole[:len(decoded)]
+        else:
+          expect = (avail + [0] * ((-len(avail)) % per))[:len(decoded)]
       elif spec["kind"] in ("periodic", "rec"):
         whole = None
         expect = audio_values(p, spec, len(decoded))
